@@ -84,9 +84,9 @@ def run(ctx):
             ctx.bad("builtin-shape", f"{nm}:matcher", f"{nm}: shape not recognised ({type(e).__name__}: {e})", b.span)
     ctx.floor("builtin-shape", n, 26, "builtins with a shape row")
     check_no_unstable_sort(ctx, lib, by_name)
-    check_internal_order(ctx, lib)
+    ctx.attempt("check_internal_order", check_internal_order, ctx, lib)
     check_expref_application(ctx, lib, by_name, sigs)
-    check_result_types(ctx, lib, sigs)
+    ctx.attempt("check_result_types", check_result_types, ctx, lib, sigs)
 
 
 def C(ctx, nm, key, ok, text, b):
@@ -458,7 +458,15 @@ def fn_sort_by(ctx, lib, nm, b):
         good = good and ms(val, lambda x: x[0] == "agg" and x[1] == "tuple" and len(x[2]) == 2 and paired(x))
     C(ctx, nm, "pairs", good, "each element is paired with the key computed from that same element", b)
     emp = [(blk, t) for blk, t in oks if ms(t, Agg(V + "::Array", Each(view("array", arg(0)))))]
-    C(ctx, nm, "empty", len(emp) == 1, "an empty array is returned unchanged", b)
+    guard_ok = False
+    br = Branches(b, o)
+    for sb, sw in br.switches():
+        be = br.bool_edges(sb)
+        if be and emp:
+            for c in br.cond(sb):
+                if m(c, Call(r"::is_empty$", Each(view("array", arg(0))), regex=True)) and edge_dominates(b, (sb, be[0]), emp[0][0]):
+                    guard_ok = True
+    C(ctx, nm, "empty", len(emp) == 1 and guard_ok, "the input is returned unchanged exactly when it is empty (is_empty guard)", b)
 
 
 def paired(tup):
@@ -566,6 +574,52 @@ def check_internal_order(ctx, lib):
     if b is None:
         return
     o = Origins(b, lib)
+    # exhaustive walk: (same type?, kind) -> the only possible results
+    from ..decision import Walker
+    from ..leaf import KINDS, TYPE_OF, VIEW_KIND
+    EQUAL = ("agg", "std::cmp::Ordering::Equal", (), ())
+    for same in (1, 0):
+        for k in KINDS:
+            def atom(t, k=k):
+                if t[0] == "discr" and t[1][0] == "call" and t[1][1] == "variable::Variable::get_type":
+                    return TYPE_OF[k]
+                if t[0] == "discr" and t[1][0] == "view" and t[1][2] in (("param", 1), ("param", 2)):
+                    return "Some" if VIEW_KIND[t[1][1]] == k else "None"
+                return None
+
+            def call(t, argvals, same=same):
+                if t[1] in ("std::cmp::PartialEq::ne", "std::cmp::PartialEq::eq") and \
+                        all(x[0] == "call" and x[1] == "variable::Variable::get_type" for a in t[2] for x in a):
+                    return (1 - same) if t[1].endswith("::ne") else same
+                return None
+
+            w = Walker(b, o, atom=atom, call=call)
+            try:
+                paths = w.walk()
+            except Exception as e:  # Undecided
+                ctx.bad(rule, f"cmp:{k}/{'same' if same else 'different'}", f"Ord::cmp undecidable: {e}", b.span)
+                continue
+            outs = set()
+            for path, leaf in paths:
+                for t in w.result_on_path(path):
+                    if t == EQUAL:
+                        outs.add("Equal")
+                    elif m(t, Call("std::cmp::Ord::cmp", Each(view("string", ("param", 1))), Each(view("string", ("param", 2))))):
+                        outs.add("String::cmp(self, other)")
+                    elif m(t, Call("std::option::Option::<T>::unwrap_or", Each(Call("std::cmp::PartialOrd::partial_cmp", Each(view("number", ("param", 1))), Each(view("number", ("param", 2))))), Each(("agg", "std::cmp::Ordering::Less", (), ())))):
+                        outs.add("partial_cmp(self, other) or Less")
+                    else:
+                        outs.add("?" + fmt_terms([t])[:70])
+            if not same:
+                want = {"Equal"}
+            elif k == "String":
+                want = {"String::cmp(self, other)"}
+            elif k == "Number":
+                want = {"partial_cmp(self, other) or Less"}
+            else:
+                want = {"Equal"}
+            ctx.check(outs == want, rule, f"cmp:{k}/{'same-type' if same else 'different-type'}",
+                      f"Variable::cmp on {k} vs a value of {'the same' if same else 'another'} type yields {sorted(want)} and nothing else (found {sorted(outs)})", b.span)
     calls = {t["callee"]: [o.of_operand(a) for a in t["args"]] for _, t in b.calls()}
     sc = [a for c, a in calls.items() if c == "std::cmp::Ord::cmp"]
     ok = len(sc) == 1 and ms(sc[0][0], view("string", ("param", 1))) and ms(sc[0][1], view("string", ("param", 2)))
